@@ -317,10 +317,10 @@ _TEXTS = {
             "the cofactor vector of K - lambda I (an eigenvector), rot = R(q/|q|) with R^T R = I and det R = +1; Trajectory.superpose / center_coordinates keep the trace "
             "cache consistent; the SSE kernels for 1..9 atoms (every remainder modulo the SIMD width, intrinsics as lane operations, shuffle immediates read from the real "
             "header): msd_atom_major builds M[3i+j] = sum a_i b_j, inplace_center_and_trace_atom_major shifts every frame by its own mean and stores its trace, "
-            "rot_atom_major applies x' = x.R -- the index conventions of the three kernels and of Horn's identity agree; msd_atom_major and rot_atom_major additionally for EVERY atom count (n = 4q + r, q symbolic: block-loop invariants -- partial sums defined by their recurrence, tail masks, reads below 3n; in-place rotation as `memory = rotated below 12k, untouched from 12k on`, scalar epilogue, nothing written from 3n on). ASSUMED: DirectSolve returns the largest "
+            "rot_atom_major applies x' = x.R -- the index conventions of the three kernels and of Horn's identity agree; msd_atom_major, rot_atom_major and inplace_center_and_trace_atom_major (one frame: lane-sum invariant of the coordinate sums, shift * n = sum over all atoms at the entry of the subtracting loop, `memory = centred below 12k, untouched from 12k on`, trace by its recurrence) additionally for EVERY atom count (n = 4q + r, q symbolic: block-loop invariants -- partial sums defined by their recurrence, tail masks, reads below 3n; in-place rotation as `memory = rotated below 12k, untouched from 12k on`, scalar epilogue, nothing written from 3n on). ASSUMED: DirectSolve returns the largest "
             "root of the quartic -- narrowed by two further contracts: DirectSolve returns the maximum of the four values of quartic_equation_solve_exact, and each of those "
             "values is a root (Ferrari's construction, identities modulo the square-root relations and the resolvent equation); what remains assumed: solve_cubic_equation "
-            "delivers the largest real root of the resolvent, and D^2, E^2 >= 0 for four real roots. Bounded only: the centring kernel for atom counts above 9, _rmsd.pyx / lprmsd glue, "
+            "delivers the largest real root of the resolvent, and D^2, E^2 >= 0 for four real roots. Bounded only: _rmsd.pyx / lprmsd glue, "
             "float32 effects, the 1e-11 identity threshold (known finding)."),
     "C07": (_T_C, "Deductive: the six angle/dihedral kernels for all frames and items, modularly over the distance kernels' contracts (atom pairs, formula "
             "acos(clip(u.v/|u||v|)), atan2 form of the dihedral with its sign, output index, matching distance variant); reversal/mirror lemmas (sympy); torsion atom tables; "
